@@ -866,7 +866,7 @@ impl Prop for P {
     const ENGINE: &'static str = "E7-codec";
 
     fn cases(tier: Tier) -> u32 {
-        tier.pick(48000, 1_500_000)
+        tier.pick(192000, 1_500_000)
     }
 
     fn strategy(_tier: Tier) -> BoxedStrategy<Case> {
